@@ -11,6 +11,7 @@ from mc import catalog
 from mc.refmodels import chain1
 
 PID = 'C02'
+THOROUGH_HASHSEEDS = ['0', '1']     # two interpreter hash seeds in the thorough tier (one pass takes 15-30 min)
 ENGINE = 'E1'
 TECHNIQUE = ('exhaustive enumeration of all data points within k letter-deviations of 4 base points on every '
              'network of a crystal catalogue; node oracle = independent site-basis chain model (R-chain1)')
